@@ -5,7 +5,8 @@
    Python floats are exact rationals in the Model (value statements are Qeq). *)
 From Coq Require Import List ZArith Bool QArith.
 Import ListNotations.
-From Verif Require Import Val Units Signatures Numeric Args NumericSpec NumericProofs ArgsProofs SigProofs GlueProofs TypedProofs.
+From Verif Require Import Val Units Signatures Numeric Args NumericSpec NumericProofs ArgsProofs SigProofs GlueProofs TypedProofs LexArgsBridge.
+From Verif Require Tokenizer LexItems.
 Local Open Scope Z_scope.
 
 (* ---------------------------------------------------------------- regenerated tables *)
@@ -103,6 +104,69 @@ Proof. exact read_decimal_print. Qed.
 Theorem C05_fil_scale : forall a off, In off [two_e9; four_e9; six_e9] ->
   (scale_unit a (1 + off) == if qlt_b a 0 then a - off else a + off)%Q.
 Proof. exact fil_scale. Qed.
+
+(* register multiples and registers as dimensions; mu units *)
+
+(* <optional signs><internal dimen>: the value is sign * register (a count or glue register coerced to its value) *)
+Theorem C05_read_dimen_register : forall U sr k e rest lvl0,
+  lvl0 <= 0 -> is_param k = true ->
+  read_dimen U (print_signs sr ++ Cs k e :: rest) lvl0 = Ok (inject_Z (sign_value sr) * as_dimen k)%Q rest lvl0.
+Proof. exact read_dimen_register. Qed.
+
+(* <optional signs><factor><optional spaces><internal dimen> (1.5\parindent): value = sign * decimal * register, exactly the
+   literal is consumed; the register is below the fil offsets (2e9 sp), as every TeX dimension is *)
+Theorem C05_read_dimen_multiple : forall U sr d n k e rest lvl0,
+  lvl0 <= 0 -> declit_ok d -> is_param k = true -> qle_b two_e9 (qabs (as_dimen k)) = false ->
+  exists v, read_dimen U (print_signs sr ++ print_dec d ++ blanks n ++ Cs k e :: rest) lvl0 = Ok v rest lvl0 /\
+            (v == inject_Z (sign_value sr) * dec_value d * as_dimen k)%Q.
+Proof. exact read_dimen_multiple. Qed.
+
+(* readMuDimen: the unit list is [mu] and a mu is one unit *)
+Theorem C05_read_mudimen_exact : forall sr d n1 tr utoks rest lvl0,
+  declit_ok d -> true_part tr -> spells s_mu utoks ->
+  exists v, read_dimen mudimen_units (print_signs sr ++ print_dec d ++ blanks n1 ++ tr ++ utoks ++ rest) lvl0
+            = Ok v (read_one_optional_space rest) lvl0 /\ (v == inject_Z (sign_value sr) * dec_value d)%Q.
+Proof. exact read_mudimen_exact. Qed.
+
+(* ---------------------------------------------------------------- from source characters to values (with the Model of C01) *)
+
+(* the characters  <blanks> (+|-)<blanks>... <digits> <any legal source items>  are turned by the tokenizer Model (default
+   category table; Model/Tokenizer.v, proved equal to the lexical rules) into exactly the printed integer literal of
+   Spec/NumericSpec.v -- runs of blanks collapse to one blank or none -- followed by the tokens of the rest *)
+Theorem C05_source_int_tokens : forall lead signs d ds tl,
+  Forall (fun c => is_dec_char c = true) (d :: ds) -> LexItems.items_ok dt tl = true ->
+  exists toks,
+    Tokenizer.tokenize dt (LexItems.print_items (blanks_item lead ++ sign_items signs ++ char_items (d :: ds) ++ tl)) = Tokenizer.RToks toks /\
+    map embed toks = print_signs (mkSR 0 (norm_signs signs)) ++ char_toks 12 (d :: ds) ++
+                     map embed (LexItems.lex_items dt Tokenizer.SM (Some (Tokenizer.Tok 12%N [last (d :: ds) d])) tl).
+Proof. exact source_int_tokens. Qed.
+
+(* ... and readInteger on those tokens returns sign * positional value of the digit characters and leaves the tokens of the rest
+   (minus one blank); the only condition on the rest is that it does not go on with a digit *)
+Theorem C05_source_int_value : forall lead signs d ds tl lvl0,
+  Forall (fun c => is_dec_char c = true) (d :: ds) -> LexItems.items_ok dt tl = true ->
+  let TL := map embed (LexItems.lex_items dt Tokenizer.SM (Some (Tokenizer.Tok 12%N [last (d :: ds) d])) tl) in
+  not_digit_head TL ->
+  exists toks,
+    Tokenizer.tokenize dt (LexItems.print_items (blanks_item lead ++ sign_items signs ++ char_items (d :: ds) ++ tl)) = Tokenizer.RToks toks /\
+    read_integer true (map embed toks) lvl0 =
+    Ok (sign_list_value signs * pos_value 10 (map Z.of_N (d :: ds))) (seq_rest (lvl0 - 1) true TL) lvl0.
+Proof. exact source_int_value. Qed.
+
+(* the characters of a dimension -- signs, digits with optional point/comma and fraction, blanks, unit letters in any case --
+   followed by any legal source: tokenize, then readDimen gives exactly sign * decimal * factor(unit) *)
+Theorem C05_source_dimen_value : forall lead signs ip pto n ucs u f tl lvl0,
+  dec_chars_ok ip pto ->
+  ucs <> [] -> Forall (fun c => is_letter_char c = true) ucs -> map upper (map Z.of_N ucs) = map upper u ->
+  In u dimen_units -> dimen_of_unit u = Some f ->
+  LexItems.items_ok dt tl = true ->
+  let TL := map embed (LexItems.lex_items dt Tokenizer.SM (Some (Tokenizer.Tok 11%N [last ucs 0%N])) tl) in
+  exists toks v,
+    Tokenizer.tokenize dt (LexItems.print_items (blanks_item lead ++ sign_items signs ++ char_items (dec_chars ip pto) ++
+                                   blanks_item n ++ char_items ucs ++ tl)) = Tokenizer.RToks toks /\
+    read_dimen dimen_units (map embed toks) lvl0 = Ok v (read_one_optional_space TL) lvl0 /\
+    (v == inject_Z (sign_list_value signs) * dec_value (dec_lit ip pto) * f)%Q.
+Proof. exact source_dimen_value. Qed.
 
 (* ---------------------------------------------------------------- M3: groups *)
 
@@ -339,4 +403,22 @@ Proof.
            (c_dict (mkArg [100] None (Some n_dict) None None true) 0 _ [([Ch 11 107], [Ch 11 118])] _
                    eq_refl (or_introl eq_refl) ltac:(discriminate) ltac:(discriminate) He (del_brace 123 125 (join_entries 44 [([Ch 11 107], [Ch 11 118])]) eq_refl))).
   apply tcall_nil.
+Qed.
+
+(* non-vacuity: the source  " - -12 x"  and  "-1,5 Pt{"  under the default table; 1.5\dima with \dima = 2pt *)
+Example C05_nonvacuous_source :
+  Forall (fun c => is_dec_char c = true) [49; 50]%N /\
+  LexItems.items_ok dt [LexItems.IBlanks 32%N []; LexItems.IChar 120%N] = true /\
+  not_digit_head (map embed (LexItems.lex_items dt Tokenizer.SM (Some (Tokenizer.Tok 12%N [50%N])) [LexItems.IBlanks 32%N []; LexItems.IChar 120%N])) /\
+  (exists toks, Tokenizer.tokenize dt (LexItems.print_items (blanks_item 1 ++ sign_items [(true, 1%nat); (true, 0%nat)] ++ char_items [49; 50]%N ++
+                                        [LexItems.IBlanks 32%N []; LexItems.IChar 120%N])) = Tokenizer.RToks toks /\
+                read_integer true (map embed toks) 0 = Ok 12 [Ch 11 120] 0) /\
+  dec_chars_ok [49%N] (Some (44%N, [53%N])) /\ map upper (map Z.of_N [80; 116]%N) = map upper s_pt /\
+  (exists v, read_dimen dimen_units ([Ch 12 49; Ch 12 46; Ch 12 53] ++ blanks 0 ++ Cs (KDimen (131072 # 1)) false :: [Ch 11 120]) 0
+             = Ok v [Ch 11 120] 0 /\ (v == (196608 # 1))%Q).
+Proof.
+  split; [repeat constructor|]. split; [vm_compute; reflexivity|]. split; [vm_compute; right; reflexivity|].
+  split; [eexists; split; vm_compute; reflexivity|].
+  split; [split; [repeat constructor|split; [reflexivity|repeat constructor]]|]. split; [reflexivity|].
+  eexists. split; [vm_compute; reflexivity|]. vm_compute. reflexivity.
 Qed.
